@@ -4,6 +4,7 @@
 package px
 
 import (
+	"sort"
 	"fmt"
 	"github.com/dcaiafa/lox/verif/internal/root"
 	"os"
@@ -74,6 +75,7 @@ type Built struct {
 
 	Rules, TermCounts, Actions, Goto []int32
 	LexModes                         [][]uint32
+	Extra                            map[string][]int64 // tables a refactored template declares besides the known ones
 
 	// From the lr1.Grammar the tables were emitted from.
 	ProdRule   []string   // production index -> rule name
@@ -169,6 +171,10 @@ func (b *Built) extract(c *ctypes.Carrier) error {
 			return fmt.Errorf("table %s not found in parser.gen.go", n)
 		}
 	}
+	b.Extra = map[string][]int64{}
+	for _, n := range pp.ExtraTables() {
+		b.Extra[n] = pp.Tables[n]
+	}
 	b.Rules = toI32(pp.Tables["_rules"])
 	b.TermCounts = toI32(pp.Tables["_termCounts"])
 	b.Actions = toI32(pp.Tables["_actions"])
@@ -189,6 +195,12 @@ func (b *Built) extract(c *ctypes.Carrier) error {
 	}
 	if cnt := lp.Tables["_lexerModes"]; len(cnt) != 1 || int(cnt[0]) != nm {
 		return fmt.Errorf("_lexerModes has %v entries, %d mode tables", cnt, nm)
+	}
+	for _, n := range lp.ExtraTables() {
+		b.Extra[n] = lp.Tables[n]
+	}
+	if got, want := fmt.Sprint(sortedKeys(b.Extra)), fmt.Sprint(sortedStrings(c.ExtraTables)); got != want {
+		return fmt.Errorf("generated files declare the extra tables %s, the carrier built from the same templates %s", got, want)
 	}
 	b.fromGrammar(r.V.Grammar)
 	if len(b.Rules) != len(b.ProdRule) || len(b.TermCounts) != len(b.ProdRule) {
@@ -222,6 +234,9 @@ func (b *Built) fromGrammar(g *lr1.Grammar) {
 // Install swaps the carrier's parser tables for b's.
 func (b *Built) Install(c *ctypes.Carrier) {
 	c.SetParserTables(b.Rules, b.TermCounts, b.Actions, b.Goto)
+	for n, v := range b.Extra {
+		c.SetExtraTable(n, v)
+	}
 }
 
 // Lox terminal index of harness token i (EOF=0, ERROR=1, then declaration order).
@@ -233,4 +248,19 @@ func RefSym(loxTerm int) int {
 		return cfgref.ErrSym
 	}
 	return loxTerm - 2 + cfgref.TokOff
+}
+
+func sortedKeys(m map[string][]int64) []string {
+	var out []string
+	for k := range m {
+		out = append(out, k)
+	}
+	sort.Strings(out)
+	return out
+}
+
+func sortedStrings(x []string) []string {
+	out := append([]string(nil), x...)
+	sort.Strings(out)
+	return out
 }
